@@ -185,6 +185,9 @@ fn main() {
     run.par_for(fam.len(), |i| {
         let (name, d) = &fam[i];
         let labs = relabelings(2 * d.n);
+        if i % 150 == 0 {
+            run.sample(json!({"diagram": name, "pd": d.pd(), "components": d.components(), "signs": (0..d.n).map(|c| d.sign(c)).collect::<Vec<_>>()}));
+        }
         let full = d.n <= 3;
         for (k, (ln, lf)) in labs.iter().enumerate() {
             if !full && k > 1 {
